@@ -1,4 +1,5 @@
 import GixModel.Model.C24Core
+import GixModel.Basic.Dec
 /-
 C24 — what GIT writes (git 2.39 `read-cache.c`, `cache-tree.c`, `resolve-undo.c`, `varint.c`),
 transcribed from the C code:
@@ -101,8 +102,8 @@ def sortByGitOrder : List Tree → List Tree
   | [] => []
   | x :: xs => insertByGitOrder x (sortByGitOrder xs)
 
-/-- decimal rendering (`%d`) of a count -/
-def natDecimal (n : Nat) : Bytes := (Nat.toDigits 10 n).map fun c => UInt8.ofNat c.toNat
+/-- decimal rendering (`%d`) of a count (`digitsFuel` with enough fuel: one unit per digit) -/
+def natDecimal (n : Nat) : Bytes := digitsFuel 10 (n + 1) n
 
 mutual
   /-- `write_one`: `path NUL entry_count SP subtree_nr LF [oid]` then the children in the order
@@ -130,18 +131,22 @@ mutual
     | t :: ts => gitOrderTree t :: gitOrderTrees ts
 end
 
-def natOctal (n : Nat) : Bytes := (Nat.toDigits 8 n).map fun c => UInt8.ofNat c.toNat
+/-- octal rendering (`%o`) -/
+def natOctal (n : Nat) : Bytes := digitsFuel 8 (n + 1) n
+
+/-- the mode written for a stage: 0 when the stage is absent -/
+def modeOf : Option (Nat × Bytes) → Nat
+  | none => 0
+  | some (m, _) => m
+
+def hashOf : Option (Nat × Bytes) → Bytes
+  | none => []
+  | some (_, h) => h
 
 /-- `resolve_undo_write`: per path `name NUL`, three times `"%o" NUL`, then the ids of the stages
 whose mode is not 0 -/
 def gitEncodeReucPath (p : ReucPath) : Bytes :=
-  p.name ++ [0] ++
-    p.stages.flatMap (fun s => match s with
-      | none => [48, 0]
-      | some (m, _) => natOctal m ++ [0]) ++
-    p.stages.flatMap (fun s => match s with
-      | none => []
-      | some (_, h) => h)
+  p.name ++ [0] ++ (p.stages.flatMap fun s => natOctal (modeOf s) ++ [0]) ++ p.stages.flatMap hashOf
 
 def gitEncodeReuc (ps : List ReucPath) : Bytes := ps.flatMap gitEncodeReucPath
 
